@@ -1,0 +1,5 @@
+//go:build !verif
+
+package channel
+
+func verifYield(string) {}
